@@ -813,7 +813,7 @@ Section EndToEnd.
     NoDup enum -> umn_listing_gen plf fx alts mode w enum = Ok l ->
     exists files links fes,
       umn_scan plf fx alts w (enum_order fx enum) [] [] = Ok (files, links) /\
-      prep_entries (fx_skip_child fx) (umn_child plf mode w) (sort_names files) = Ok fes /\
+      prep_entries (skip_of fx) (umn_child plf mode w) (sort_names files) = Ok fes /\
       l = isort oentry_leb
             (apply_entries_from (cap_dropped plf mode w (sort_names files)) links (tag_origin fes)).
   Proof.
